@@ -42,11 +42,12 @@ def C03(tier, seed):
 
 
 def C04(tier, seed):
-    return _step("C04", tier, seed, R.USER[:5] + ["UpdateTrackIDs"], base=("construct",), seg=_paint(tier))
+    return _step("C04", tier, seed, R.USER[:5] + ["UpdateTrackIDs"], base=("construct", "from_tracks"), seg=_paint(tier))
 
 
 def C05(tier, seed):
-    return _step("C05", tier, seed, R.USER[:5] + ["UpdateTrackIDs"], base=("construct",), seg=_paint(tier))
+    return _step("C05", tier, seed, R.USER[:5] + ["UpdateTrackIDs"], base=("construct", "from_tracks"),
+                 seg=_paint(tier))
 
 
 def C06(tier, seed):
@@ -236,7 +237,7 @@ def _export_runs(prop, tier, ops):
     for name, cfg in ops:
         c = dict(N=n, props=[prop])
         c.update(cfg)
-        if tier != "quick" and c.get("seg", True):
+        if tier != "quick" and c.get("seg", True) and "shape" not in cfg:
             c["shape"] = (4, 1, 1) if c.get("op") == "csv" else (3, 1, 2)
         runs.append(Run(f"export:{name}:N={n}", export.harness, c, export_replay.replay,
                         ("exported", "witness:chain_of_three"), f"solution forest on <= {n} node slots (all shapes, symbolic times/ids), every "
@@ -258,6 +259,7 @@ def C15(tier, seed):
     ops = [("geff", dict(op="geff")), ("geff:bounded_labels", dict(op="geff", max_label=4, shape=(3, 1, 1))),
            ("csv", dict(op="csv")), ("csv:display", dict(op="csv", display_names=True)),
            ("csv:export_seg", dict(op="csv", export_seg=True)), ("geff:noseg", dict(op="geff", seg=False)),
+           ("geff:3D", dict(op="geff", shape=(3, 1, 1, 1))), ("csv:3D", dict(op="csv", shape=(3, 1, 1, 1))),
            ("csv:noseg:per_axis_pos", dict(op="csv", seg=False, multi_pos=True))]
     return run_property("C15", tier, _export_runs("C15", tier, ops), explanation=R.EXPL, seed=seed,
                         assumptions=EXPORT_ASSUME, stubs=EXPORT_STUBS)
@@ -266,6 +268,7 @@ def C15(tier, seed):
 def C16(tier, seed):
     ops = [("geff", dict(op="geff")), ("geff:full", dict(op="geff", select=False)),
            ("geff:scale_given", dict(op="geff", scale="given")),
+           ("geff:3D:scale_given", dict(op="geff", scale="given", shape=(3, 1, 1, 1))),
            ("geff:noseg:per_axis_pos", dict(op="geff", seg=False, multi_pos=True)),
            ("csv", dict(op="csv")), ("csv:full:display", dict(op="csv", select=False, display_names=True)),
            ("csv:noseg:per_axis_pos:display", dict(op="csv", seg=False, multi_pos=True, display_names=True)),
@@ -289,6 +292,11 @@ def C18(tier, seed):
         Run("points:scaled:M=%d" % (2 if q else 3), candgraph.points_harness,
             dict(M=2 if q else 3, frames=3, scale="sym"), candgraph.points_replay, ("built",),
             "%d detections in 3 frames, symbolic anisotropic scale (time factor 1)" % (2 if q else 3)),
+        Run("points:no_frame_dict:M=3", candgraph.points_harness, dict(M=3, frames=4, dims=1, no_frame_dict=True),
+            candgraph.points_replay, ("built", "witness:frame_gap"),
+            "nodes_from_points_list + add_cand_edges without a frame dictionary (recomputed from the graph)"),
+        Run("seg:unit_scale:3x1x2", candgraph.seg_harness, dict(shape=(3, 1, 2), labels=3, scale="none"),
+            candgraph.seg_replay, ("built",), "label array 3x1x2, scale=None"),
         Run("points1d:M=%d" % (4 if q else 5), candgraph.points_harness, dict(M=4 if q else 5, frames=4, dims=1),
             candgraph.points_replay, ("built", "witness:frame_gap"),
             "%d detections in 4 frames, 1-D positions (|a-b| <= r is linear: one more detection is affordable)"
